@@ -14,6 +14,9 @@ import (
 	"sync"
 	"time"
 
+	"github.com/opencontainers/go-digest"
+	ocispec "github.com/opencontainers/image-spec/specs-go/v1"
+	"oras.land/oras-go/v2/registry/remote"
 	"oras.land/oras-go/v2/registry/remote/auth"
 	"oras.land/oras-go/v2/registry/remote/retry"
 	"oras.land/oras-go/v2/zsim/simrt"
@@ -32,8 +35,12 @@ type RetryParams struct {
 	Jitter     float64  `json:"jitter"`
 	CancelAtUs int64    `json:"cancel_at_us,omitempty"` // cancel the context at this simulated instant (0 = never)
 	Deadline   bool     `json:"deadline,omitempty"`     // the context ends by a deadline at that instant instead of a cancel call
-	Cache      bool     `json:"cache,omitempty"`
-	Probe      []int    `json:"probe,omitempty"` // attempt numbers for which the policy is asked directly
+	// ViaRepo: the first request is a blob upload made by remote.Repository.Push through
+	// this client stack (POST for the session, then the PUT the behaviours apply to). Body
+	// "seekable" is then a ReadSeeker positioned behind a header inside a larger stream.
+	ViaRepo bool  `json:"via_repo,omitempty"`
+	Cache   bool  `json:"cache,omitempty"`
+	Probe   []int `json:"probe,omitempty"` // attempt numbers for which the policy is asked directly
 	// More: further requests sent through the same client after the first one
 	// (cached schemes and tokens come into play)
 	More []MoreReq `json:"more,omitempty"`
@@ -96,6 +103,12 @@ func (p *retryProp) Gen(r *Rand, tier string, idx int) any {
 	if r.Chance(0.3) {
 		rp.CancelAtUs = int64(r.Range(1, 4000))*1000 + 1
 		rp.Deadline = r.Chance(0.4)
+	}
+	if rp.Body != "none" && rp.BodySize > 0 && r.Chance(0.25) {
+		rp.ViaRepo = true
+		if r.Chance(0.4) {
+			rp.Body = "seekable"
+		}
 	}
 	rp.Cache = r.Bool()
 	if r.Chance(0.4) {
@@ -204,11 +217,20 @@ func (s *retryServer) RoundTrip(req *http.Request) (*http.Response, error) {
 		return nil, err
 	}
 	mk := func(status int, hdr http.Header, b string) (*http.Response, error) {
+		if status == 200 && req.Method == http.MethodPut && strings.Contains(req.URL.Path, "/blobs/uploads/") {
+			status = 201 // a completed blob upload
+		}
 		rec.status = status
 		if hdr == nil {
 			hdr = http.Header{}
 		}
 		return &http.Response{StatusCode: status, Status: http.StatusText(status), Header: hdr, Body: io.NopCloser(strings.NewReader(b)), ContentLength: int64(len(b)), Request: req, Proto: "HTTP/1.1", ProtoMajor: 1, ProtoMinor: 1}, nil
+	}
+	if req.Method == http.MethodPost && strings.HasSuffix(req.URL.Path, "/blobs/uploads/") {
+		// opening an upload session: not one of the attempts the behaviours script
+		rec.token = true
+		s.attempts = append(s.attempts, rec)
+		return mk(202, http.Header{"Location": {"/v2/r/blobs/uploads/session-1"}}, "")
 	}
 	if strings.HasPrefix(req.URL.Path, "/token") {
 		rec.token = true
@@ -301,6 +323,12 @@ func (p *recordingPolicy) pauseBefore(idx int) (time.Duration, bool) {
 	}
 	return 0, false
 }
+
+// offsetSeeker is a plain ReadSeeker (no type net/http knows how to replay).
+type offsetSeeker struct{ r *bytes.Reader }
+
+func (o *offsetSeeker) Read(p []byte) (int, error)                { return o.r.Read(p) }
+func (o *offsetSeeker) Seek(off int64, whence int) (int64, error) { return o.r.Seek(off, whence) }
 
 type oneShot struct{ r io.Reader }
 
@@ -398,6 +426,27 @@ func (p *retryProp) run(rc *RunCtx, rp *RetryParams, info *RunInfo) *Verdict {
 		if body != nil {
 			method = http.MethodPut
 		}
+		if rp.ViaRepo && rp.Body != "none" {
+			repo, _ := remote.NewRepository("retry.test/r")
+			repo.Client = client
+			var content io.Reader
+			switch rp.Body {
+			case "replayable":
+				content = bytes.NewReader(payload)
+			case "oneshot":
+				content = &oneShot{r: bytes.NewReader(payload)}
+			default: // seekable: the blob lies behind a header in a larger stream
+				whole := append([]byte("HEADER-HEADER-HEADER-HEADER-"), payload...)
+				rs := &offsetSeeker{r: bytes.NewReader(whole)}
+				rs.Seek(int64(len(whole)-len(payload)), io.SeekStart)
+				content = rs
+			}
+			d := ocispec.Descriptor{MediaType: "application/octet-stream", Digest: digest.FromBytes(payload), Size: int64(len(payload))}
+			doErr = repo.Push(ctx, d, content)
+			returnedAt = time.Since(srv.start)
+			info.Probes["upload_through_repository"]++
+			return
+		}
 		req, _ := http.NewRequestWithContext(ctx, method, "https://retry.test/v2/r/manifests/x", body)
 		resp, doErr = client.Do(req)
 		returnedAt = time.Since(srv.start)
@@ -487,7 +536,7 @@ func (p *retryProp) run(rc *RunCtx, rp *RetryParams, info *RunInfo) *Verdict {
 						retried = true
 					}
 					if !bytes.Equal(a.body, payload) {
-						if bodyKind == "oneshot" {
+						if bodyKind == "oneshot" || bodyKind == "seekable" {
 							return violation("one-shot-body-resent-truncated", "", "attempt %d of send %d carried %d of %d body bytes of a body that cannot be replayed\n%s", ai+1, si+1, len(a.body), len(payload), describe())
 						}
 						return violation("body-not-rewound", "", "attempt %d of send %d carried %d of %d body bytes\n%s", ai+1, si+1, len(a.body), len(payload), describe())
